@@ -59,6 +59,8 @@ def m_json_eq(I, st, info, args, depth):
         return None
     neg = info["tdef"].endswith("ne")
     (na, a), (nb, b) = _jname(I, st, args[0]), _jname(I, st, args[1])
+    if isinstance(a, A.Struct) and isinstance(b, A.Struct) and a.variant == "Null" and b.variant == "Null":
+        return MD.ret(st, A.BoolV(not neg))
     for x, y in ((a, b), (b, a)):
         if isinstance(x, A.Struct) and x.variant == "Null" and isinstance(y, A.Sym) and y.classes is not None:
             return [(s2, "return", A.BoolV(r != neg)) for s2, r in MD.fork_classes(I, st, y, lambda c: c == "Null")]
@@ -167,7 +169,8 @@ def _table(I, outs, T, bid, line, file, label=""):
             if len(es) > 1:
                 probs["C16.R4"].append("validator %s is invoked %d times on one parse when [%s]" % (name, len(es), cond[-200:]))
             for e in es:
-                if e[2] != k or e[3] != jn(k):
+                null_here = e[3] == "Value::Null" and (s.facts.get(("cls", jn(k))) or frozenset(["?"])) <= frozenset(["Null"])
+                if e[2] != k or (e[3] != jn(k) and not null_here):
                     probs["C16.R2"].append("validator %s is called with (%r, %s) instead of (%r, &json[%r])" % (name, e[2], e[3], k, k))
         failed = [c[:-6] for c in s.cond if c.endswith(" fails") and c.startswith("V_")]
         cls_a = s.facts.get(("cls", jn(KA)))
@@ -204,7 +207,7 @@ def _table(I, outs, T, bid, line, file, label=""):
             if cause is None:
                 # which key is blamed?
                 blame = ""
-                if any(("cls", jn(k)) in s.facts for k in VALID) or any(isinstance(kf, tuple) and kf[0] == "jsoneq" and "(%s)" % KC in str(kf) for kf in s.facts):
+                if any(("cls", jn(k)) in s.facts and not s.facts.get(("lookup_refined", jn(k))) for k in VALID) or any(isinstance(kf, tuple) and kf[0] == "jsoneq" and "(%s)" % KC in str(kf) for kf in s.facts):
                     blame = " (a claim that has a validator is also subjected to a presence / equality test)"
                     probs["C16.R6"].append("the parse fails with %s for a reason other than a validator's verdict%s when [%s]" % (var, blame, cond[-200:]))
                 else:
@@ -215,7 +218,8 @@ def _table(I, outs, T, bid, line, file, label=""):
     for o in outs:
         s = o.state
         for k in VALID:
-            if ("cls", jn(k)) in s.facts or any(isinstance(kf, tuple) and kf[0] == "jsoneq" and jn(k) in kf for kf in s.facts):
+            # (a refinement that only records the outcome of the lookup itself - `get(key)` came back empty - is not a test of the value)
+            if (("cls", jn(k)) in s.facts and not s.facts.get(("lookup_refined", jn(k)))) or any(isinstance(kf, tuple) and kf[0] == "jsoneq" and jn(k) in kf for kf in s.facts):
                 probs["C16.R6"].append("the payload's %r, which has a validator, is also tested for presence / equality when [%s]" % (k, " & ".join(s.cond)[-160:]))
                 break
     if n_ok == 0:
@@ -402,15 +406,18 @@ def registration_contracts(facts):
     K, O, N = "K", "other", "fresh"
     subsets = [[], [O], [K], [K, O]]
 
-    def find(name):
-        bs = [b for bid, b in facts.bodies.items() if (b.get("name") or bid.rsplit("::", 1)[-1]) == name and re.search(r"generic_parser::GenericParser::<", bid) and "{closure" not in bid]
+    def find(name, owner):
+        bs = [b for bid, b in facts.bodies.items() if (b.get("name") or bid.rsplit("::", 1)[-1]) == name and re.search(owner, bid) and "{closure" not in bid]
         return bs[0] if len(bs) == 1 else None
-    fns = [("check_claim", ("C15.R5",)), ("validate_claim", ("C15.R5", "C16.R5")), ("extend_check_claims", ("C15.R5",)), ("extend_validation_claims", ("C16.R5",))]
-    for name, rules in fns:
-        b = find(name)
+    GP, PP = r"generic_parser::GenericParser::<", r"paseto_parser::PasetoParser::<"
+    fns = [("check_claim", ("C15.R5",), GP), ("validate_claim", ("C15.R5", "C16.R5"), GP), ("extend_check_claims", ("C15.R5",), GP), ("extend_validation_claims", ("C16.R5",), GP),
+           ("check_claim", ("C15.R5",), PP), ("validate_claim", ("C15.R5", "C16.R5"), PP)]
+    for name, rules, owner in fns:
+        b = find(name, owner)
+        prelude = owner == PP
         if b is None:
             for r in rules:
-                _f(out, r, False, "GenericParser::" + name, "anchor missing", "registration function %s not found" % name)
+                _f(out, r, False, ("PasetoParser::" if prelude else "GenericParser::") + name, "anchor missing", "registration function %s not found" % name)
             continue
         v = M.view(facts, b)
         bid, file, line = b["id"], v.file(), b["line"]
@@ -425,6 +432,8 @@ def registration_contracts(facts):
                 pv = parser_value(st)
                 pv.fields["claims"] = MI.mapv("claims", [(A.StrV(k), A.Sym(n, attrs={"expected_of": k})) for k, n in claims0.items()])
                 pv.fields["claim_validators"] = MI.mapv("claim_validators", [(A.StrV(k), A.Sym(n, attrs={"validator": n})) for k, n in vals0.items()])
+                if prelude:
+                    pv = A.Struct("crate::prelude::paseto_parser::PasetoParser", None, {"version": A.UNIT, "purpose": A.UNIT, "parser": pv})
                 me = st.new_cell(pv)
                 newc = A.Sym("NEW", attrs={"claim_key": K, "expected_of": K})
                 newf = A.Sym("F", attrs={"validator": "F"})
@@ -451,6 +460,8 @@ def registration_contracts(facts):
                 pre = "expected claims %s, validators %s" % (sorted(claims0), sorted(vals0))
                 for o in outs:
                     me_v = MD.deref(I, o.state, A.Ptr(me))
+                    if prelude and isinstance(me_v, A.Struct):
+                        me_v = MD.deref(I, o.state, me_v.fields.get("parser"))
                     gc = _showmap(I, o.state, me_v.fields.get("claims")) if isinstance(me_v, A.Struct) else None
                     gv = _showmap(I, o.state, me_v.fields.get("claim_validators")) if isinstance(me_v, A.Struct) else None
                     if gc is None or gv is None:
@@ -462,6 +473,8 @@ def registration_contracts(facts):
                         wv = dict((k, x) for k, x in want_v.items() if k != K)
                     else:
                         wv = want_v
+                    # an expectation may be kept as given or already serialised (to_value of it)
+                    gc = dict((k, "NEW" if x == "expected(%s)" % K and want_c.get(k) == "NEW" else x) for k, x in gc.items())
                     if gc != want_c:
                         probs["C15.R5"].append("from [%s] the expected claims become %s, not %s" % (pre, sorted(gc.items()), sorted(want_c.items())))
                     if gv != wv:
@@ -480,7 +493,7 @@ def registration_contracts(facts):
             if r in rules or not ok:
                 _f(out, r, ok, bid, "registration contract of %s" % name,
                    "%s must store the new entry under the claim's key (replacing an earlier one) and keep every other expected claim and validator; %s" % (name, "; ".join(probs[r][:2])),
-                   line, file, desc="%s: from all 16 combinations of earlier entries the %s afterwards are the earlier ones with the new entry stored under its key" % (name, "expected claims" if r == "C15.R5" else "validators"))
+                   line, file, desc="%s%s: from all 16 combinations of earlier entries the %s afterwards are the earlier ones with the new entry stored under its key" % ("PasetoParser::" if prelude else "", name, "expected claims" if r == "C15.R5" else "validators"))
     return out
 
 
